@@ -96,7 +96,7 @@ fn documents(case: &Value, damages: usize, seed: u64) -> Vec<(String, String, Ve
         // single-token damages (sampled)
         let spells: Vec<String> = p.toks.iter().map(|t| t.spell.clone()).collect();
         let mut rng = Rng::new(seed ^ fxhash(spells.join(" ").as_bytes()));
-        let alpha = ["(", ")", "[", "]", "{", "}", "=", ":=", ":", ",", ";", "-", "if", "else", "while", "array", "of", "ref", "var", "proc", "type", "x", "int", "1", "'", "//", "$", "\u{142}"];
+        let alpha = ["(", ")", "[", "]", "{", "}", "=", ":=", ":", ",", ";", "-", "if", "else", "while", "array", "of", "ref", "var", "proc", "type", "x", "int", "1", "'", "//", "$", "\u{142}", "'\u{142}'", "'\u{20AC}'", "'\u{1F600}'", "'\u{1F600}", "0xFFFFFFFFF", "99999999999"];
         for _ in 0..damages {
             if spells.is_empty() {
                 break;
